@@ -128,7 +128,7 @@ def _txn(rng, g, nkeys, nvals, mapping, focus=None):
 
 def plan(rng, tier):
     cfg = common.draw_cfg(rng, kinds=("BTree", "TreeSet"), p_stored=1.0,
-                          p_default_sizes=0.05)
+                          p_default_sizes=0.05, p_sub=0.1)
     cfg["stored"] = True
     if cfg["internal"] == 2 and rng.random() < 0.6:
         cfg["internal"] = rng.choice([3, 4])
